@@ -405,22 +405,23 @@ def overlap(mean1, cov1, mean2, cov2, hbar):
 
 def fidelity(mean1, cov1, mean2, cov2, hbar):
     """Uhlmann fidelity (Tr sqrt(sqrt(rho1) rho2 sqrt(rho1)))^2 of two Gaussian states,
-    Banchi-Braunstein-Pirandola PRL 115, 260501 (2015), eqs. (8)-(10), evaluated through the
-    matrix square root (the library goes through eigenvalues).  sqrt of a numerically singular
-    matrix costs half of the digits, so this reference is only good to ~1e-7."""
-    import scipy.linalg
-
+    Banchi-Braunstein-Pirandola PRL 115, 260501 (2015):
+        V_aux = Om^T (V1+V2)^-1 (Om/4 + V2 Om V1),
+        F_tot^4 = det[2 (sqrt(1 + (V_aux Om)^-2 / 4) + 1) V_aux],  F0 = F_tot / det(V1+V2)^(1/4),
+        F = F0 exp(-dr^T (V1+V2)^-1 dr / 4)   (not squared in the paper; squared here).
+    V_aux Om has the eigenvalues +-i w_k/2 (w_k >= 1), so the matrix square root is evaluated on
+    the spectrum: F_tot^4 = det(2 V_aux) prod_k (1 + sqrt(1 - 1/w_k^2)) over all 2d eigenvalues.
+    sqrt(1 - 1/w^2) at w ~ 1 (pure states) costs half of the digits: good to ~1e-7."""
     r1, V1 = _dimless(vec_to_xpxp(mean1), mat_to_xpxp(cov1), hbar)
     r2, V2 = _dimless(vec_to_xpxp(mean2), mat_to_xpxp(cov2), hbar)
     d = len(r1) // 2
     Om = omega_xpxp(d)
     Vs = V1 + V2
     Vaux = Om.T @ np.linalg.solve(Vs, Om / 4 + V2 @ Om @ V1)
-    X = np.linalg.inv(Vaux @ Om)
-    inner = np.identity(2 * d) + X @ X / 4
-    root = scipy.linalg.sqrtm(inner.astype(complex))
-    Ftot4 = np.linalg.det(2 * (root + np.identity(2 * d)) @ Vaux)
-    F0 = abs(Ftot4) ** 0.25 / np.linalg.det(Vs) ** 0.25
+    w = 2 * np.abs(np.linalg.eigvals(Vaux @ Om))
+    t = np.clip(1 - 1 / w**2, 0.0, None)
+    Ftot4 = abs(np.linalg.det(2 * Vaux)) * float(np.prod(1 + np.sqrt(t)))
+    F0 = Ftot4**0.25 / np.linalg.det(Vs) ** 0.25
     dr = r2 - r1
     F = F0 * math.exp(-0.25 * dr @ np.linalg.solve(Vs, dr))
     return float(F**2)
